@@ -55,7 +55,7 @@ TRUSTED_SPAWN = [
 ]
 
 MANIFEST = {
-    "text": "(4) Two linked nodes (harness/cmd/c06remote -twin, monitors only): a termination notice from the OTHER node that names an address a living local child also has leaves the parent's children table alone (C05:remote-notice:living-child-dropped). Two tied models. (1) Kernel model (children bookkeeping incl. stale-notice handling, graceful flag, tryTerminated, parent/watchers "
+    "text": "Kernel/Descend.v: the step in which a living or restarting actor takes a terminate request hands a terminate request (non-graceful in the system queue, or graceful at the tail of the user messages) to the object registered under every child it had (C05_terminate_request_reaches_every_child; no hypotheses, from any state). (4) Two linked nodes (harness/cmd/c06remote -twin, monitors only): a termination notice from the OTHER node that names an address a living local child also has leaves the parent's children table alone (C05:remote-notice:living-child-dropped). Two tied models. (1) Kernel model (children bookkeeping incl. stale-notice handling, graceful flag, tryTerminated, parent/watchers "
             "notification, registry, closed flag) replayed in lockstep against the real actor system over random trees with terminations, "
             "restarts, re-spawns, watch-before-spawn, spawns from termination handlers and sends in flight, ending with Shutdown. Proved for "
             "every role table that never spawns from an actor's own OnTerminated handler nor under a system address, and every label sequence "
